@@ -330,6 +330,7 @@ def run(ctx):
     souts = {o["n"]: o for o in read_jsonl(sp)}
     if rc != 0 or len(outs) != len(scs):
         ctx.tie_broken("go-harness actor.deliverAcrossHandoff", gout)
+    ctx.coq_build(["theories/C35/Model.vo"])
     pred, cout = predict(ctx, scs, outs)
     reported = 0
     persistent = {}
